@@ -6,6 +6,7 @@ import (
 	"fmt"
 	"go/token"
 	"go/types"
+	"os"
 	"sort"
 	"strings"
 
@@ -15,6 +16,7 @@ import (
 type Obligation struct {
 	Name      string
 	NAsserts  int
+	Anc       map[int]bool // blocks whose assertions are relevant (ancestors of the obligation's block); nil: all
 	Guard     string
 	Goal      string
 	Extra     []string
@@ -87,6 +89,7 @@ type FuncGen struct {
 	defers   []*ssa.Defer
 	cur      *State // state while executing a block
 	curBlock *ssa.BasicBlock
+	ancCache map[int]map[int]bool
 	curGuard string
 	seed     []string
 	safety   bool
@@ -276,8 +279,11 @@ func (g *FuncGen) run() {
 	// blocks in topological order (ignoring back edges)
 	order := g.topoOrder()
 	for _, b := range order {
+		g.c.curTag = b.Index
 		g.processBlock(b)
 	}
+	g.c.curTag = -1
+	g.curBlock = nil
 	g.finishPosts()
 }
 
@@ -434,6 +440,9 @@ func (g *FuncGen) curGuardOrTrue() string {
 
 func (g *FuncGen) addObl(o *Obligation) {
 	o.NAsserts = len(g.c.asserts)
+	if g.curBlock != nil && !o.ExpectSat && g.fn != nil {
+		o.Anc = g.ancestorsOf(g.curBlock)
+	}
 	if g.fn != nil {
 		o.Func = g.fn.String()
 	}
@@ -442,6 +451,32 @@ func (g *FuncGen) addObl(o *Obligation) {
 	}
 	o.Extra = append(o.Extra, g.splitExtra...)
 	g.obls = append(g.obls, o)
+}
+
+// ancestorsOf: the blocks from which b is reachable along forward (non-back) edges, b included.  Assertions
+// made while translating any other block define values and heap versions that b's obligations cannot mention.
+func (g *FuncGen) ancestorsOf(b *ssa.BasicBlock) map[int]bool {
+	if g.ancCache == nil {
+		g.ancCache = map[int]map[int]bool{}
+	}
+	if a, ok := g.ancCache[b.Index]; ok {
+		return a
+	}
+	anc := map[int]bool{b.Index: true}
+	work := []*ssa.BasicBlock{b}
+	for len(work) > 0 {
+		x := work[len(work)-1]
+		work = work[:len(work)-1]
+		for _, p := range x.Preds {
+			if g.backEdge[[2]int{p.Index, x.Index}] || anc[p.Index] {
+				continue
+			}
+			anc[p.Index] = true
+			work = append(work, p)
+		}
+	}
+	g.ancCache[b.Index] = anc
+	return anc
 }
 
 // ---------- CFG analysis ----------
@@ -501,6 +536,9 @@ func (g *FuncGen) analyzeCFG() {
 	})
 	for i, li := range ls {
 		li.ordinal = i + 1
+		if os.Getenv("GOVC_LOOPS") != "" {
+			fmt.Fprintf(os.Stderr, "LOOP %s: loop %d at %s\n", g.fnName, li.ordinal, g.prog.Fset.Position(li.minPos))
+		}
 		if g.contract != nil {
 			li.spec = g.contract.Loops[li.ordinal]
 		}
@@ -597,6 +635,17 @@ func (g *FuncGen) computeNonEscaping() {
 				}
 			case *ssa.DebugRef:
 			case *ssa.Range:
+			case *ssa.MakeClosure:
+				// captured by a closure that only ever reads the variable: no call can change it
+				cfn, isFn := x.Fn.(*ssa.Function)
+				if !isFn || depth > 0 {
+					return false
+				}
+				for i, bnd := range x.Bindings {
+					if bnd == v && (i >= len(cfn.FreeVars) || !readOnlyFreeVar(cfn.FreeVars[i], 0)) {
+						return false
+					}
+				}
 			case *ssa.Call:
 				// builtins len/cap/delete are fine
 				if b, isB := x.Call.Value.(*ssa.Builtin); isB {
@@ -626,6 +675,35 @@ func (g *FuncGen) computeNonEscaping() {
 			}
 		}
 	}
+}
+
+// readOnlyFreeVar: the closure (and the closures it creates) only loads from the captured variable.
+func readOnlyFreeVar(fv *ssa.FreeVar, depth int) bool {
+	if depth > 4 || fv.Referrers() == nil {
+		return false
+	}
+	for _, r := range *fv.Referrers() {
+		switch x := r.(type) {
+		case *ssa.UnOp:
+			if x.Op != token.MUL {
+				return false
+			}
+		case *ssa.DebugRef:
+		case *ssa.MakeClosure:
+			cfn, ok := x.Fn.(*ssa.Function)
+			if !ok {
+				return false
+			}
+			for i, bnd := range x.Bindings {
+				if bnd == ssa.Value(fv) && (i >= len(cfn.FreeVars) || !readOnlyFreeVar(cfn.FreeVars[i], depth+1)) {
+					return false
+				}
+			}
+		default:
+			return false
+		}
+	}
+	return true
 }
 
 // ---------- block processing ----------
